@@ -13,7 +13,8 @@ RULE = ("(a) exhaustive shaping: every letter of the joining set (42 Arabic/Pers
         "right-joining alef, dual-joining beh, tatweel, ZWJ, ZWNJ} x next neighbour in {none, space, beh, alef, ZWJ, ZWNJ} x {no diacritic, "
         "diacritic before, diacritic after}; (b) Hypothesis: lines mixing Latin, digits, neutrals, Arabic/Persian letters, diacritics, ZWJ/ZWNJ "
         "and the configured mark patterns x td in -2..2 x order in {0,1,2}: dir_reorder on an identity-initialised order must give a "
-        "permutation with the terminator last; identity for plain lines; exactly the reversed runs for lines without mark characters; "
+        "permutation with the terminator last; the columns ren_position assigns under (order, textdirection, linelimit) must be the prefix sums "
+        "of the cell widths in exactly that visual order (logical order when the options switch reordering off); identity for plain lines; exactly the reversed runs for lines without mark characters; "
         "uc_shape must return a presentation form of the same letter with the form implied by its joining neighbours (Unicode character "
         "database), NULL/unchanged for non-Arabic.  Non-trivial = line with a run of length >=2 of the opposite direction containing a "
         "neutral; distinct by SHA-1 of the case")
@@ -41,7 +42,9 @@ def case(draw):
     withmarks = draw(st.integers(0, 3)) == 0
     pools = [LAT, LAT, NEU, ARA, ARA, DIA, ZW] + ([MARKS, MARKS] if withmarks else [])
     parts = draw(st.lists(st.sampled_from(pools).flatmap(st.sampled_from), max_size=16))
-    return {"s": "".join(parts), "td": draw(st.integers(-2, 2)), "order": draw(st.sampled_from([1, 2, 2, 0])), "shape": draw(st.booleans())}
+    s = "".join(parts)
+    return {"s": s, "td": draw(st.integers(-2, 2)), "order": draw(st.sampled_from([1, 1, 2, 2, 0])), "shape": draw(st.booleans()),
+            "lim": draw(st.sampled_from([256, 256, 256, len(s) + 1, len(s), 0]))}
 
 
 def strategy(tier):
@@ -118,6 +121,26 @@ def run_case(env, c):
             want = bidi.reorder(s, ctx, t) + [n - 1]
             if ordv != want:
                 return Outcome(False, nt, cl, detail={"why": "runs not reversed as documented", "got": ordv, "want": want, "case": c})
+            # the same order as seen by the renderer: ren_position() reorders when the order option asks for it (2: always,
+            # 1: lines with a non-ASCII character, 0: never) and the line is within linelimit; the columns are then the
+            # prefix sums of the cell widths in that visual order
+            lim = c.get("lim", 256)
+            on = n <= lim and (c["order"] == 2 or (c["order"] == 1 and any(ord(ch) >= 128 for ch in line)))
+            vis = want if on else list(range(n))
+            rr = p.call("ren", probe.hx(line), c["order"], c["td"], lim)[0]
+            pos = rr[1:]
+            inv = [0] * n
+            for i, v in enumerate(vis):
+                inv[v] = i
+            col = 0
+            wantpos = [0] * n
+            for v in range(n):
+                wantpos[inv[v]] = col
+                col += t.cwid(ord(line[inv[v]]), col)
+            if rr[0] != n or pos[:n] != wantpos or pos[n] != col:
+                return Outcome(False, nt, cl, detail={"why": "columns assigned by ren_position (order=%d, linelimit=%d) do not follow the documented visual order"
+                                                      % (c["order"], lim), "got": pos, "want": wantpos + [col], "visual": vis, "case": c})
+            cl.append("renderer_reorders" if on and vis != list(range(n)) else "renderer_logical")
         why = check_shape(p, line, 1)
         if why:
             return Outcome(False, nt, cl, detail={"why": why, "case": c})
